@@ -121,7 +121,13 @@ func (a sortableNodeArray) compare(lhs *CandidateNode, rhs *CandidateNode, dateT
 		isDateTime = errLhs == nil && errRhs == nil
 	}
 
-	if lhsTag == "!!null" && rhsTag != "!!null" {
+	lhsIsNumber := lhsTag == "!!int" || lhsTag == "!!float"
+	rhsIsNumber := rhsTag == "!!int" || rhsTag == "!!float"
+
+	if lhsTag == "!!null" && rhsTag == "!!null" {
+		// however they are spelled (null, ~, empty)
+		return 0
+	} else if lhsTag == "!!null" && rhsTag != "!!null" {
 		return -1
 	} else if lhsTag != "!!null" && rhsTag == "!!null" {
 		return 1
@@ -157,7 +163,13 @@ func (a sortableNodeArray) compare(lhs *CandidateNode, rhs *CandidateNode, dateT
 		}
 
 		return 1
-	} else if (lhsTag == "!!int" || lhsTag == "!!float") && (rhsTag == "!!int" || rhsTag == "!!float") {
+	} else if lhsIsNumber && !rhsIsNumber {
+		// numbers sort before strings (like jq); comparing their text instead
+		// made the order intransitive (9 < 2147483648 < "9" but 9 == "9")
+		return -1
+	} else if !lhsIsNumber && rhsIsNumber {
+		return 1
+	} else if lhsIsNumber && rhsIsNumber {
 		if lhsTag == "!!int" && rhsTag == "!!int" {
 			_, lhsNum, lhsErr := parseInt64(lhs.Value)
 			_, rhsNum, rhsErr := parseInt64(rhs.Value)
